@@ -223,3 +223,179 @@ Proof.
   unfold step_balanced, s_change. cbn [s_in_value s_pay s_changes s_fee].
   split; [lia|]. split; [lia|]. symmetry. exact Ea.
 Qed.
+
+(** ** select_spendable_transparent_outputs (the gather of a transfer's TransparentSpendPolicy) *)
+
+Section GAtoms.
+  Variable q : gparams.
+  Variable u : utxo_row.
+  Variable sp : bool.
+  Notation ev := (eval (utxo_cols u) (gq_pv q) (gq_lv q) sp).
+
+  Lemma gat_acct :
+    truthy (ev (EAnd (ECmp CEq (ECol C_account_uuid) (EPar P_account_uuid))
+                     (EOr (ECmp CEq (EPar P_has_allow_list) (ELit 0)) (EInList (ECol C_addr) L_addresses))))
+    = (u_acct u =? gq_acct q) && match gq_allow q with None => true | Some a => existsb (Z.eqb (u_addr u)) a end.
+  Proof.
+    cbn [eval utxo_cols gq_pv gq_lv]. normv. destruct (gq_allow q); cbn [bv cmp_z]; normv; cbn; lia.
+  Qed.
+
+  Lemma gat_value : truthy (ev (ECmp CGt (ECol C_u_value) (EPar P_min_value))) = (5000 <? u_value u).
+  Proof. cbn [eval utxo_cols gq_pv]. normv. reflexivity. Qed.
+
+  Lemma gat_confirmed :
+    truthy (ev (EOr (EAnd (ECmp CLt (ECol C_t_mined) (EPar P_target_height))
+                          (ECmp CGe (ESub (EPar P_target_height) (ECol C_t_mined)) (EPar P_min_confirmations)))
+                    (EAnd (ECmp CEq (EPar P_min_confirmations) (ELit 0))
+                          (EOr (ECmp CEq (ECol C_t_expiry) (ELit 0)) (ECmp CGe (ECol C_t_expiry) (EPar P_target_height))))))
+    = utxo_confirmed (gq_target q) (gq_minconf q) u.
+  Proof.
+    unfold utxo_confirmed. cbn [eval utxo_cols gq_pv]. normv.
+    destruct (u_mined u) as [m|], (u_expiry u) as [x|]; cbn [ov]; normv; cbn [cmp_z truthy]; lia.
+  Qed.
+
+  Lemma gat_ephemeral :
+    truthy (ev (EOr (EOr (ECmp CNe (ECol C_addr_key_scope) (ELit 2)) (ECmp CEq (ECol C_u_no_wallet_inputs) (ELit 1)))
+                    (ECmp CGt (ECol C_u_maxobs) (ECol C_t_expiry))))
+    = utxo_not_wallet_ephemeral u.
+  Proof.
+    unfold utxo_not_wallet_ephemeral. cbn [eval utxo_cols]. normv.
+    destruct (u_no_wallet_inputs u), (u_maxobs u) as [a|], (u_expiry u) as [b|]; cbn [ov bv]; normv; cbn [cmp_z truthy]; lia.
+  Qed.
+
+  Lemma gat_coinbase_mature :
+    truthy (ev (ENot (EAnd (ECmp CEq (EIfNull (ECol C_t_txindex) (ELit 1)) (ELit 0))
+                           (ECmp CLt (ESub (EPar P_target_height) (ECol C_t_mined)) (ELit 100)))))
+    = utxo_coinbase_mature (gq_target q) u.
+  Proof.
+    unfold utxo_coinbase_mature, utxo_is_coinbase. cbn [eval utxo_cols gq_pv]. normv.
+    destruct (u_txindex u) as [i|], (u_mined u) as [m|]; cbn [ov]; normv; cbn [cmp_z falsy];
+      try destruct (i =? 0) eqn:E; lia.
+  Qed.
+
+  Lemma gat_filter :
+    truthy (ev (EOr (EOr (ECmp CEq (EPar P_coinbase_filter) (ELit 0))
+                         (EAnd (ECmp CEq (EPar P_coinbase_filter) (ELit 1)) (ECmp CEq (EIfNull (ECol C_t_txindex) (ELit 1)) (ELit 0))))
+                    (EAnd (ECmp CEq (EPar P_coinbase_filter) (ELit 2)) (ECmp CNe (EIfNull (ECol C_t_txindex) (ELit 1)) (ELit 0)))))
+    = utxo_filter_ok (gq_filter q) u.
+  Proof.
+    unfold utxo_filter_ok, utxo_is_coinbase. cbn [eval utxo_cols gq_pv]. normv.
+    destruct (gq_filter q), (u_txindex u) as [i|]; cbn [ov cbfilter_code]; normv; cbn [cmp_z]; lia.
+  Qed.
+
+  Lemma gat_lock :
+    truthy (ev (EOr (EOr (EIsNull (ECol C_rn_lock_expiry)) (ECmp CLt (ECol C_rn_lock_expiry) (EPar P_target_height)))
+                    (EInList (ECol C_rn_lock_owner) L_overridable_owners)))
+    = utxo_not_locked_by_other (gq_target q) (gq_owners q) u.
+  Proof.
+    unfold utxo_not_locked_by_other. cbn [eval utxo_cols gq_pv gq_lv]. normv.
+    destruct (u_lock u) as [x|], (u_owner u) as [o|]; cbn [ov]; normv; cbn [cmp_z truthy]; try reflexivity.
+    all: destruct (gq_owners q); cbn; try lia.
+  Qed.
+
+  Lemma gat_key :
+    truthy (ev (ENot (EAnd (EAnd (ECmp CEq (ECol C_addr_key_scope) (ELit (-1))) (EIsNull (ECol C_addr_imp_pubkey)))
+                           (EIsNull (ECol C_addr_imp_script)))))
+    = utxo_has_key u.
+  Proof.
+    unfold utxo_has_key. cbn [eval utxo_cols]. normv.
+    destruct (u_imp_pubkey u), (u_imp_script u); cbn [nn]; normv; cbn [cmp_z falsy]; lia.
+  Qed.
+End GAtoms.
+
+Theorem utxo_gather_where_spec q lf u :
+  utxo_gather_passes q lf u
+  = utxo_spendable_acct (gq_target q) (gq_minconf q) (gq_filter q) (gq_acct q) (gq_allow q)
+      (match lf with LFUnfiltered => None | LFPolicy _ => Some (gq_owners q) end) u.
+Proof.
+  unfold utxo_gather_passes, utxo_spendable_acct, utxo_core.
+  set (sp := utxo_spent (gq_target q) u).
+  destruct lf as [|lp]; unfold utxo_gather_where, utxo_gather_where_unfiltered, utxo_gather_where_policy.
+  - rewrite !(fun a b => eq_refl : eval (utxo_cols u) (gq_pv q) (gq_lv q) sp (EAnd a b) = v_and (eval (utxo_cols u) (gq_pv q) (gq_lv q) sp a) (eval (utxo_cols u) (gq_pv q) (gq_lv q) sp b)).
+    rewrite !truthy_and.
+    rewrite <- (truthy_and (eval (utxo_cols u) (gq_pv q) (gq_lv q) sp (ECmp CEq (ECol C_account_uuid) (EPar P_account_uuid)))).
+    change (v_and (eval (utxo_cols u) (gq_pv q) (gq_lv q) sp (ECmp CEq (ECol C_account_uuid) (EPar P_account_uuid)))
+                  (eval (utxo_cols u) (gq_pv q) (gq_lv q) sp (EOr (ECmp CEq (EPar P_has_allow_list) (ELit 0)) (EInList (ECol C_addr) L_addresses))))
+      with (eval (utxo_cols u) (gq_pv q) (gq_lv q) sp
+              (EAnd (ECmp CEq (ECol C_account_uuid) (EPar P_account_uuid))
+                    (EOr (ECmp CEq (EPar P_has_allow_list) (ELit 0)) (EInList (ECol C_addr) L_addresses)))).
+    rewrite gat_acct, gat_value, gat_confirmed, gat_ephemeral, gat_coinbase_mature, gat_filter, gat_key.
+    cbn [eval truthy]. rewrite truthy_b2v. unfold sp. rewrite utxo_spent_spec, negb_involutive.
+    cbn. rewrite !andb_true_r. rewrite <- !andb_assoc. reflexivity.
+  - rewrite !(fun a b => eq_refl : eval (utxo_cols u) (gq_pv q) (gq_lv q) sp (EAnd a b) = v_and (eval (utxo_cols u) (gq_pv q) (gq_lv q) sp a) (eval (utxo_cols u) (gq_pv q) (gq_lv q) sp b)).
+    rewrite !truthy_and.
+    rewrite <- (truthy_and (eval (utxo_cols u) (gq_pv q) (gq_lv q) sp (ECmp CEq (ECol C_account_uuid) (EPar P_account_uuid)))).
+    change (v_and (eval (utxo_cols u) (gq_pv q) (gq_lv q) sp (ECmp CEq (ECol C_account_uuid) (EPar P_account_uuid)))
+                  (eval (utxo_cols u) (gq_pv q) (gq_lv q) sp (EOr (ECmp CEq (EPar P_has_allow_list) (ELit 0)) (EInList (ECol C_addr) L_addresses))))
+      with (eval (utxo_cols u) (gq_pv q) (gq_lv q) sp
+              (EAnd (ECmp CEq (ECol C_account_uuid) (EPar P_account_uuid))
+                    (EOr (ECmp CEq (EPar P_has_allow_list) (ELit 0)) (EInList (ECol C_addr) L_addresses)))).
+    rewrite gat_acct, gat_value, gat_confirmed, gat_ephemeral, gat_coinbase_mature, gat_filter, gat_lock, gat_key.
+    cbn [eval truthy]. rewrite truthy_b2v. unfold sp. rewrite utxo_spent_spec, negb_involutive.
+    rewrite <- !andb_assoc. reflexivity.
+Qed.
+
+Lemma insert_g_perm le x l : Permutation (insert_g le x l) (x :: l).
+Proof.
+  induction l as [|y t IH]; cbn; [reflexivity|]. destruct (le x y); [reflexivity|].
+  rewrite IH. apply perm_swap.
+Qed.
+Lemma sort_g_perm le l : Permutation (sort_g le l) l.
+Proof. induction l as [|x t IH]; cbn; [reflexivity|]. rewrite insert_g_perm. constructor. exact IH. Qed.
+
+Lemma accumulate_in tv : forall cap n acc l u, In u (accumulate_utxos tv cap n acc l) -> In u l.
+Proof.
+  intros cap n acc l. revert cap n acc. induction l as [|x t IH]; intros cap n acc u H; [destruct cap; simpl in H; contradiction|].
+  destruct cap as [|cap']; [simpl in H; contradiction|]. cbn [accumulate_utxos] in H.
+  destruct (match tv with Some t0 => t0 <=? Z.max 0 (acc - gather_fee n) | None => false end); [simpl in H; contradiction|].
+  destruct H as [->|H]; [left; reflexivity | right; eapply IH; exact H].
+Qed.
+
+Lemma accumulate_nodup tv : forall cap n acc l,
+  NoDup (map u_id l) -> NoDup (map u_id (accumulate_utxos tv cap n acc l)).
+Proof.
+  intros cap n acc l. revert cap n acc. induction l as [|x t IH]; intros cap n acc H; [destruct cap; constructor|].
+  destruct cap as [|cap']; [constructor|]. cbn [accumulate_utxos].
+  destruct (match tv with Some t0 => t0 <=? Z.max 0 (acc - gather_fee n) | None => false end); [constructor|].
+  inversion H as [|? ? Hx Ht]; subst. cbn. constructor; [|apply IH; exact Ht].
+  intros Hin. apply Hx. apply in_map_iff in Hin. destruct Hin as [y [Hy Hi]].
+  apply in_map_iff. exists y. split; [exact Hy | eapply accumulate_in; exact Hi].
+Qed.
+
+Theorem select_transparent_sound udb acct allow target pol zc f tv lf u :
+  In u (select_transparent udb acct allow target pol zc f tv lf) ->
+  In u udb /\ utxo_spendable_acct target (minconf pol zc) f acct allow (owners_opt lf) u = true.
+Proof.
+  unfold select_transparent. generalize (Z.to_nat SHIELDING_MAX_INPUTS). intros cap H.
+  apply accumulate_in in H. apply (Permutation_in _ (sort_g_perm _ _)) in H.
+  apply filter_In in H. destruct H as [Hin Hp]. split; [exact Hin|].
+  rewrite utxo_gather_where_spec in Hp. cbn [gq_target gq_minconf gq_filter gq_acct gq_allow gq_owners] in Hp.
+  destruct lf; exact Hp.
+Qed.
+
+Theorem select_transparent_nodup udb acct allow target pol zc f tv lf :
+  NoDup (map u_id udb) -> NoDup (map u_id (select_transparent udb acct allow target pol zc f tv lf)).
+Proof.
+  intros Hn. unfold select_transparent. generalize (Z.to_nat SHIELDING_MAX_INPUTS). intros cap.
+  apply accumulate_nodup. eapply Permutation_NoDup; [apply Permutation_map; symmetry; apply sort_g_perm|].
+  apply nodup_filter_ids. exact Hn.
+Qed.
+
+Lemma sum_utxos_app a b : sum_utxos (a ++ b) = sum_utxos a + sum_utxos b.
+Proof. unfold sum_utxos. induction a as [|x t IH]; cbn; [reflexivity|]. rewrite IH. lia. Qed.
+
+Lemma sum_utxos_le (l : list utxo_row) : forall m,
+  NoDup l -> incl l m -> (forall x, In x m -> 0 <= u_value x) -> sum_utxos l <= sum_utxos m.
+Proof.
+  induction l as [|x t IH]; intros m Hn Hi Hv.
+  - unfold sum_utxos at 1. cbn. clear Hi. induction m as [|y m' IHm]; [cbn; lia|].
+    unfold sum_utxos in *. cbn. specialize (Hv y (or_introl eq_refl)) as Hy.
+    assert (0 <= fold_right (fun u a => u_value u + a) 0 m') by (apply IHm; intros z Hz; apply Hv; right; exact Hz). lia.
+  - inversion Hn as [|? ? Hx Ht]; subst.
+    destruct (in_split x m (Hi x (or_introl eq_refl))) as [m1 [m2 ->]].
+    assert (Hi' : incl t (m1 ++ m2)).
+    { intros y Hy. specialize (Hi y (or_intror Hy)). apply in_app_or in Hi.
+      apply in_or_app. destruct Hi as [Hi|[Hi|Hi]]; [left; exact Hi | subst; contradiction | right; exact Hi]. }
+    specialize (IH (m1 ++ m2) Ht Hi' (fun z Hz => Hv z ltac:(apply in_app_or in Hz; apply in_or_app; destruct Hz; [left|right; right]; assumption))).
+    rewrite sum_utxos_app in *. unfold sum_utxos in *. cbn. lia.
+Qed.
